@@ -17,6 +17,9 @@ CHECKS["C07"] = dict(level="other", design="4/C07",
 CHECKS["C16"] = dict(level="other", design="4/C16",
    text="Total-function check decided by the solver: for n<=N unsorted intervals with unbounded symbolic ends (int, real and mixed families) and a symbolic probe key, construction raises KeyError exactly when an interval is inverted or two share a point; otherwise lookup / in / len / ascending complete iteration equal a linear scan. Every relative position of key and interval ends is a solver-decided path.",
    note="Trusted: CrossHair+z3; floats modelled as finite reals (exact for comparisons; NaN/inf outside the claim); PairsMapping stub for the dict argument (pairwise different keys assumed). Bounds: N=3 quick / 4 thorough.")
+CHECKS["C09"] = dict(level="other", design="4/C09",
+   text="Solver-decided construction + inductive step: initial collections of length<=L (int / real / mixed families, repeats, empty) give strictly ascending iteration with set()/dict() content (later pair wins; Mapping and pairs forms); from every strictly ascending state of size<=L each SortedSet/SortedMap operation with a symbolic number matches a sorted-list model and the storage invariant; foreign probes ('x', None, (1,)) report absent and leave the structure unchanged.",
+   note="Trusted: CrossHair+z3; floats as finite reals (NaN/inf outside the claim); PairsMapping stub for the Mapping initialiser. Bounds: L=4 quick / 5 thorough.")
 NOT_YET = {}
 def main():
     props = [json.loads(l)["id"] for l in open(os.path.join(ROOT, "properties.jsonl"))]
